@@ -363,10 +363,18 @@ def run_property(mod, prop_id, tier, seed, replay=None):
 
     # known-finding hits that are not listed in the file are violations
     unlisted = [fid for fid in merged["known"] if fid not in known_entries]
+    fixed = {e.get("id"): e for e in load_known() if e.get("status") == "fixed" and e.get("property") == prop_id}
     for fid in unlisted:
         k = merged["known"].pop(fid)
-        merged["violations"].append({
-            "case": k["witness"], "why": f"finding {fid} is not listed as known", "observed": None})
+        if fid in fixed:
+            why = (f"the defect {fid} (recorded as fixed by {str(fixed[fid].get('commit'))[:10]}) is back: "
+                   f"{fixed[fid].get('what', '')[:300]}")
+        else:
+            why = f"a violation with the signature of {fid} was observed, and {fid} is not listed as a known finding"
+        w = k["witness"]
+        if isinstance(w, dict) and w.get("why"):
+            why += f" — witness: {str(w.get('why'))[:300]}"
+        merged["violations"].append({"case": w, "why": why, "observed": None})
         merged["n_violations"] += k["count"]
 
     wall = time.time() - t0
